@@ -306,7 +306,7 @@ fn emit_res_meta(r: &Res<AccountMeta>) -> String {
 pub fn run_c05(ctx: &Ctx) -> Report {
     let mut rep = Report::new("C05");
     rep.corr_module = "Resolution".into();
-    rep.expect_classes(&["resolve:ok:fixed", "resolve:ok:pda", "resolve:ok:external-pda", "resolve:ok:key-data", "resolve:err", "kind:unknown", "pda:crate", "pda:too-long", "ctor:seeds", "ctor:external"]);
+    rep.expect_classes(&["resolve:ok:fixed", "resolve:ok:pda", "resolve:ok:external-pda", "resolve:ok:key-data", "resolve:err", "kind:unknown", "pda:crate", "pda:too-long", "ctor:seeds", "ctor:external", "ctor:pubkey", "ctor:key-data", "accounts:>100", "data:>=64KiB", "resolve:low-canonical-bump", "resolve:same-bytes-other-cut"]);
     let mut rng = Rng::new(ctx.seed.wrapping_mul(211).wrapping_add(5));
     // (b) the PDA derivation itself: model vs solana-pubkey
     let npda = ctx.scale(60, 600);
@@ -789,7 +789,12 @@ fn monitor_privileges(rep: &mut Report, sc: &Scenario, out: &[AccountMeta], path
 pub fn run_c06_c08(ctx: &Ctx, prop: &str) -> Report {
     let mut rep = Report::new(prop);
     rep.corr_module = "Resolution".into();
-    rep.expect_classes(&["both:ok", "both:err", "deescalated", "duplicate-key"]);
+    rep.expect_classes(&["both:ok", "both:err", "deescalated", "duplicate-key", "stored-data:with-tail"]);
+    if prop == "C06" {
+        rep.expect_classes(&["cpi-infos:not-mirroring-metas"]);
+    } else {
+        rep.expect_classes(&["pool:duplicate-infos"]);
+    }
     let mut rng = Rng::new(ctx.seed.wrapping_mul(223).wrapping_add(if prop == "C06" { 6 } else { 8 }));
     let n_coq = ctx.scale(500, 5000);
     let n_mon = ctx.scale(15_000, 150_000);
@@ -919,7 +924,7 @@ pub fn run_c06_c08(ctx: &Ctx, prop: &str) -> Report {
 pub fn run_c07(ctx: &Ctx) -> Report {
     let mut rep = Report::new("C07");
     rep.corr_module = "Resolution".into();
-    rep.expect_classes(&["check:accepted", "check:rejected", "mut:key", "mut:flag", "mut:swap", "mut:drop", "mut:add", "short-list", "malformed-data"]);
+    rep.expect_classes(&["check:accepted", "check:rejected", "mut:key", "mut:flag", "mut:swap", "mut:drop", "mut:add", "short-list", "malformed-data", "scenario:any-reference", "accepted-list:>=256-accounts:ok", "accepted-list:refers-to-index-255:ok", "check:data-borrowed-by-caller"]);
     let mut rng = Rng::new(ctx.seed.wrapping_mul(227).wrapping_add(7));
     let n_coq = ctx.scale(350, 3500);
     let n_mon = ctx.scale(6000, 60000);
@@ -1093,7 +1098,7 @@ fn ml_prealloc(buf: &mut [u8], t: usize, k: usize) -> Res<()> {
 pub fn run_c12(ctx: &Ctx) -> Report {
     let mut rep = Report::new("C12");
     rep.corr_module = "Resolution".into();
-    rep.expect_classes(&["init:ok", "init:err", "update:ok", "update:err", "reload:ok", "reload:err", "exact-size", "one-byte-less", "malformed"]);
+    rep.expect_classes(&["init:ok", "init:err", "update:ok", "update:err", "reload:ok", "reload:err", "exact-size", "one-byte-less", "malformed", "prealloc:ok", "lists:>=255-configs"]);
     let mut rng = Rng::new(ctx.seed.wrapping_mul(229).wrapping_add(12));
     // exact size: succeeds; one byte less fails
     for n in (0..=8usize).chain([255usize, 256, 257, 300, 1880].into_iter()) {
